@@ -20,7 +20,9 @@ MANIFEST = dict(
          "declaration and fails iff there is none; evaluation never changes the domain of a frame other than the current one, and loop bodies, "
          "calls and catch clauses leave every existing frame's domain unchanged; calls do not depend on the caller's frame (lexical scoping); "
          "closures see later writes and per-iteration variables are distinct; loops absorb one level of break/continue, calls only return, try only "
-         "throw; and/or/coalesce do not evaluate their right-hand side when short-circuiting; for-yield with a guard is map/filter. "
+         "throw (a refusing catch pattern rethrows the original value); and/or/coalesce do not evaluate their right-hand side when "
+         "short-circuiting; for-yield with a guard is map/filter; break/continue value rules of yielding loops; the into reducers; "
+         "parameter binding (plain, default, splat); one-statement blocks; the store stays well-formed (closure frame ids in range). "
          "The interpreter is tied to /repo on every run by generated programs (closures escaping their scope, per-iteration closures, shadowing, "
          "multi-level break with yield, throw across calls) run through both, comparing value, printed output and raised/not raised.",
     note="Trusted: Coq kernel; the hand-written reference interpreter Lang/Syntax.v + Lang/Eval.v (it IS the reference of the documented rules; its tie "
